@@ -55,7 +55,7 @@ func newFnTrans(w *World, fn *ssa.Function, con *Contract) *FnTrans {
 		edgeCond: map[[2]int]string{}, idxTerms: map[string]bool{}, elemIdx: map[string]bool{}, nameCnt: map[string]int{},
 		unknownCalls: map[string]int{}, assumedUsed: map[string]bool{}, contractsUsed: map[string]bool{}, params: map[string]Val{},
 		siteCount: map[string]int{}, strLits: map[string]string{}, typeTags: map[string]int{}, compSorts: map[string]string{},
-		constArrs: map[string]string{}, globalsUsed: map[string]bool{}, intrinsicsUsed: map[string]bool{}, pureCalls: map[string]int{}, sitesMatched: map[*SiteSpec]bool{}}
+		constArrs: map[string]string{}, knownRefs: map[string]bool{}, globalsUsed: map[string]bool{}, intrinsicsUsed: map[string]bool{}, pureCalls: map[string]int{}, sitesMatched: map[*SiteSpec]bool{}}
 	if con != nil {
 		t.mode = con.Mode
 	}
@@ -156,6 +156,7 @@ func runCheck(o CheckOpts) int {
 	w.loadSecs = time.Since(lt).Seconds()
 
 	var fnReports []FnReport
+	var skippedThorough []string
 	var reports []*OblReport
 	var internalErrs []string
 	var unsupported []string
@@ -217,6 +218,10 @@ func runCheck(o CheckOpts) int {
 			if ob.Broken {
 				continue
 			}
+			if ob.F.Clause != nil && ob.F.Clause.ThoroughOnly && ob.Kind == "ensures" && o.Tier != "thorough" {
+				skippedThorough = append(skippedThorough, ob.Name)
+				continue
+			}
 			r := &OblReport{Name: ob.Name, Kind: ob.Kind, Text: ob.Text, obl: ob, ft: t}
 			if ob.Pos.IsValid() {
 				p := w.fset.Position(ob.Pos)
@@ -272,10 +277,10 @@ func runCheck(o CheckOpts) int {
 	close(jobs)
 	wg.Wait()
 
-	return finishCheck(o, w, reports, fnReports, unsupported, start)
+	return finishCheck(o, w, reports, fnReports, unsupported, skippedThorough, start)
 }
 
-func finishCheck(o CheckOpts, w *World, reports []*OblReport, fnReports []FnReport, unsupported []string, start time.Time) int {
+func finishCheck(o CheckOpts, w *World, reports []*OblReport, fnReports []FnReport, unsupported []string, skippedThorough []string, start time.Time) int {
 	kf := loadKnownFindings(o.Verif)
 	obligations, discharged := 0, 0
 	var violations []string
@@ -416,6 +421,7 @@ func finishCheck(o CheckOpts, w *World, reports []*OblReport, fnReports []FnRepo
 		"known_findings_seen":      knownSeen,
 		"failed":                   violations,
 		"unsupported_or_stale":     unsupported,
+		"thorough_only_obligations_skipped_in_this_tier": skippedThorough,
 		"contracts_source_mirror":  w.mirrorUsed,
 		"assume_clauses_in_contract_files": assumeScan,
 		"vacuity_canaries":         countCanaries(reports),
@@ -432,6 +438,13 @@ func finishCheck(o CheckOpts, w *World, reports []*OblReport, fnReports []FnRepo
 		o.Prop, obligations, discharged, len(knownSeen), len(violations), countCanaries(reports)["refuted"], time.Since(start).Seconds())
 	for _, u := range unsupported {
 		fmt.Printf("govc: note: %s\n", u)
+	}
+	if os.Getenv("GOVC_SLOW") != "" {
+		for _, r := range reports {
+			if r.Millis > 2000 {
+				fmt.Printf("govc: slow: %6dms %-8s %s %s\n", r.Millis, r.Result, r.Backend, r.Name)
+			}
+		}
 	}
 	return exit
 }
